@@ -542,7 +542,8 @@ pub fn variant(r: &mut StdRng, p: &Program, which: usize) -> (Program, String) {
                     // only permute a maximal run in which every group starts with a cel and contains no
                     // other attachable entity (layer, slice, tags, legacy palette)
                     let mut end = start;
-                    while end < f.chunks.len() && matches!(f.chunks[end], Chunk::Cel(_) | Chunk::Ud(_) | Chunk::CelExtra(_)) {
+                    // (ignorable chunks do not move the user data context, so they stay with the group they are in)
+                    while end < f.chunks.len() && matches!(f.chunks[end], Chunk::Cel(_) | Chunk::Ud(_) | Chunk::CelExtra(_) | Chunk::Mask(_) | Chunk::Path(_) | Chunk::Profile(_)) {
                         end += 1;
                     }
                     let mut groups: Vec<Vec<(Chunk, u32)>> = vec![];
@@ -595,13 +596,16 @@ pub fn gen_cmd(args: &[String]) {
     for i in 0..n {
         let p = gen_sprite(&mut r, &k);
         let mut c = case(format!("g3-{}-{}-{}", profile, seed, i), &p, "full", json!({"gen": "g3", "profile": profile}));
+        c["group"] = json!(format!("g3-{}-{}-{}", profile, seed, i));
         if twice {
             c["twice"] = json!(true);
         }
         out.ev(&c);
         for v in 0..nvar {
             let (q, label) = variant(&mut r, &p, v);
-            out.ev(&case(format!("g3-{}-{}-{}-v{}", profile, seed, i, v), &q, "full", json!({"gen": "g3", "profile": profile, "variant_of": i, "choice": label})));
+            let mut vc = case(format!("g3-{}-{}-{}-v{}", profile, seed, i, v), &q, "full", json!({"gen": "g3", "profile": profile, "variant_of": i, "choice": label}));
+            vc["group"] = json!(format!("g3-{}-{}-{}", profile, seed, i));
+            out.ev(&vc);
         }
     }
     out.flush();
